@@ -99,3 +99,9 @@ package mapping
 //@   ensures implies(err == nil && len(fields[1]) == 0, nr.right == math.MaxFloat64)
 //@   ensures implies(err == nil && nr.left == nr.right, nr.leftInclude && nr.rightInclude)
 //@   allocates
+
+// a nested object is read through a valuer that does NOT fall back to the enclosing objects (only `inherit` fields do,
+// through createValuer): a key missing in the nested object is missing, whatever the parents carry
+//@ func (u *Unmarshaler) processFieldNotFromString
+//@   property C08
+//@   call processFieldStruct#0: assert typeIs(arg_m, *simpleValuer)
